@@ -381,7 +381,15 @@ fn handle_established(
                     };
                 }
             }
-            tcb.snd_wnd = s.window;
+            // Take the window only from an ACK that is not older than
+            // what we already know: a reordered, overtaken ACK (its ack
+            // number lies before `snd_una`) describes the peer's buffer
+            // as it was, and applying its window to the newer `snd_una`
+            // lets us send past the peer's current right edge — or
+            // closes a window the peer has reopened since.
+            if (s.ack.wrapping_sub(tcb.snd_una) as i32) >= 0 {
+                tcb.snd_wnd = s.window;
+            }
             wake_write = true;
         }
 
